@@ -788,6 +788,11 @@ class Exec(Interp):
         for e in list(chosen.ensures) + list(c.ensures_all):
             self.assume(st, self.spec_eval(st, e, ctx, env, fi.module, fi))
         if not st.feasible():
+            # the path was feasible when the case was chosen: a postcondition that cannot hold here is a contradictory (or
+            # ghost-dependent, call-site-unsafe) contract -- report it instead of silently dropping the path
+            if not os.environ.get("PYVC_NO_VACUITY") and not self.spec_mode:
+                st.ghost.setdefault("vacuity_alarms", []).append(
+                    "the postcondition of %s (case %s) assumed at line %s is unsatisfiable on this path" % (fi.qualname, chosen.name, line))
             raise PathCut()
         self.vacuity_probe(st, n_facts_before, "call of %s (case %s) at line %s" % (fi.qualname, chosen.name, line),
                            (fi.key, line, chosen.name, raises))
